@@ -79,6 +79,11 @@ func (b *baseCockpit) remove(t *task.Task) {
 		}
 	}
 
+	if b.spinner == nil {
+		// nothing was ever added: the task was skipped or failed before its output started
+		return
+	}
+
 	var mark = aurora.Green("✔")
 	if t.Errored {
 		mark = aurora.Red("✗")
